@@ -251,6 +251,18 @@ def _named_rejections(ctx):
         if ("ne", name, ty) in p.facts or ("ne", ty, name) in p.facts:
             type_seen += 1
             ctx.ob("R2", "type-mismatch-class|%s" % s.key(), s.loc(), "a type-for-role mismatch is reported as %s (expected MetadataVerificationError)" % p.value.exc, prog.exc_is_sub(p.value.exc, "MetadataVerificationError"))
+    # ... and the signature verdict is the last clause: a SignatureError (from verify_signable or
+    # raised here) only on paths on which the role is known to be delegated - otherwise an
+    # undelegated role or a mistyped document is reported as a signature problem
+    for p in sm.paths:
+        if p.kind != "raise" or not prog.exc_is_sub(p.value.exc, "SignatureError"):
+            continue
+        from sa.walker import State as _State
+
+        if ("has", dl, name) in _State(facts=p.facts).closure():
+            continue
+        s = p.value.chain[0]
+        ctx.ob("R2", "signature-verdict-last|%s" % s.key(), s.loc(), "verify_delegation raises %s at %s before the role is known to be delegated: an undelegated role (or a document of the wrong type) is reported as a signature failure instead of UnknownRoleError / MetadataVerificationError" % (p.value.exc, s.text[:60]), False)
     ctx.count("R2.unknown_role_raise", min(role_seen, 1))
     ctx.count("R2.type_mismatch_raise", min(type_seen, 1))
     # (c) root version mismatch -> MetadataVerificationError
